@@ -12,7 +12,9 @@ EXTENDS XPathSem
 KeyValue(F, nodes, i, k, c) ==
   LET v == Eval(k.sel, [c EXCEPT !.n = nodes[i], !.pos = i, !.size = Len(nodes), !.cur = nodes[i]]) IN
   IF Bad(v) THEN [bad |-> TRUE, n |-> NaN, s |-> <<>>]
-  ELSE IF k.dtype = "number" THEN LET x == ToNumX(F, v) IN [bad |-> IsUnm(x), n |-> x, s |-> <<>>]
+  \* "the resulting object is converted to a string as if by a call to the string function; this string is used as the sort key";
+  \* data-type="number": "the sort keys should be converted to numbers" - a boolean key is NaN (number('true')), so is an infinite one
+  ELSE IF k.dtype = "number" THEN LET x == StrToNum(ToStr(F, v)) IN [bad |-> IsUnm(x) \/ (v.t = "num" /\ IsUnm(v.v)), n |-> x, s |-> <<>>]
   ELSE [bad |-> FALSE, n |-> NaN, s |-> ToStr(F, v)]
 
 RECURSIVE StrLess(_, _, _)
